@@ -48,6 +48,7 @@ var sdScenarios = []sdScenario{
 	{Name: "pconsumer-slow-reader", Component: "pconsumer", Variant: "slow", KMax: 120},
 	{Name: "pconsumer-reader-stops", Component: "pconsumer", Variant: "reader-stops", KMax: 120},
 	{Name: "pconsumer-redispatch", Component: "pconsumer", Variant: "redispatch", Faults: []int{ffOk, ffRedispatch, ffOk, ffDrop, ffOtherCode}, KMax: 140},
+	{Name: "pconsumer-fetch-dies", Component: "pconsumer", Variant: "fetch-dies", KMax: 100},
 	{Name: "pconsumer-out-of-range", Component: "pconsumer", Variant: "oor", Faults: []int{ffOk, ffOutOfRange}, KMax: 60},
 	{Name: "consumer-3-partitions", Component: "consumer", Variant: "three", Faults: []int{ffOk, ffOk, ffRedispatch}, KMax: 160},
 	{Name: "group-in-session", Component: "group", Variant: "session", KMax: 140},
@@ -57,6 +58,7 @@ var sdScenarios = []sdScenario{
 	{Name: "group-coordinator-unreachable", Component: "group", Variant: "unreachable", KMax: 60},
 	{Name: "group-two-members", Component: "group", Variant: "two", KMax: 160},
 	{Name: "group-idle-member", Component: "group", Variant: "idle-member", KMax: 120},
+	{Name: "group-offset-fetch-fails", Component: "group", Variant: "offset-fetch-fails", KMax: 80},
 	{Name: "om-mid-commit", Component: "om", Variant: "slow-commit", KMax: 80},
 	{Name: "om-errors", Component: "om", Variant: "errors", KMax: 80},
 	{Name: "client-refresher", Component: "client", Variant: "refresher", KMax: 60},
@@ -558,6 +560,15 @@ func sdConsumer(r *sdRun, rng *rand.Rand) {
 	r.sim.OnFetch = func(ctx *sarama.VSimFetchCtx) sarama.VSimFetchAction {
 		act := sarama.VSimFetchAction{Magic: 2, BatchSizes: []int{3}, MaxBatches: 1, PartIdx: -1}
 		i := int(atomic.AddInt32(&fi, 1)) - 1
+		if r.sc.Variant == "fetch-dies" && i >= 2 {
+			// every fetch stays in flight for a while; two of three then die with
+			// their connection (a close that lands meanwhile meets a failed fetch)
+			act.DelayMs = 6
+			if i%3 != 0 {
+				act.Kind = sarama.VFDrop
+			}
+			return act
+		}
 		if i < len(faults) {
 			switch faults[i] {
 			case ffRedispatch:
@@ -711,6 +722,12 @@ func sdGroup(r *sdRun, rng *rand.Rand) {
 		case "unreachable":
 			if ctx.Kind == "find-coordinator" {
 				return sarama.VSimGroupAction{Kind: sarama.VGError, Code: sarama.ErrConsumerCoordinatorNotAvailable}
+			}
+		case "offset-fetch-fails":
+			// the first two sessions die while they are being set up: the initial
+			// offset of a claim cannot be fetched (not retriable)
+			if ctx.Kind == "offset-fetch" && atomic.AddInt32(&nJoin, 1) <= 2 {
+				return sarama.VSimGroupAction{Kind: sarama.VGError, Code: sarama.ErrGroupAuthorizationFailed}
 			}
 		}
 		return sarama.VSimGroupAction{}
